@@ -5,7 +5,7 @@
 (* of the oracle on the grid (TLC checks them on NumbersX/Binary32/BigInt  *)
 (* alone), and the printed grid from which the cases are formed.           *)
 (***************************************************************************)
-EXTENDS NumbersX, Json
+EXTENDS NumbersX, Json, SequencesExt
 
 I(n) == [t |-> "int", v |-> n]
 Rt(n, d) == [t |-> "rat", n |-> n, d |-> d]
@@ -99,7 +99,13 @@ TernaryOps == <<"+", "-", "*", "/", "=", "<", ">", "<=", ">=", "max", "min">>
 
 Init == i \in 1..N /\ j \in 1..N /\ phase = 0
 Next == phase = 0 /\ phase' = 1 /\ UNCHANGED <<i, j>>
+\* pairs of distinct grid entries that have the same binary32 image (numerically equal in different
+\* representations, or distinct exact numbers that round to the same real): the interesting neighbours
+\* for n-ary chains and mixed comparisons
+GridR == [x \in 1..N |-> RealOfV(Val(x))]
+Confusable == {p \in (1..N) \X (1..N) : p[1] < p[2] /\ ~IsNaN(GridR[p[1]]) /\ RCmp(GridR[p[1]], GridR[p[2]]) = 0}
 Emit == (phase = 1 /\ i = 1 /\ j = 1) =>
           PrintT(<<"VEC", ToJson([grid |-> [x \in 1..N |-> [src |-> Grid[x].src, val |-> Grid[x].val]],
-                                  unary |-> UnaryOps, binary |-> BinaryOps, ternary |-> TernaryOps])>>)
+                                  unary |-> UnaryOps, binary |-> BinaryOps, ternary |-> TernaryOps,
+                                  confusable |-> SetToSeq(Confusable)])>>)
 =============================================================================
